@@ -167,6 +167,13 @@ func scenarios() []scenario {
 		timedScenario("timed:1s:success|fail", time.Second, func(get func() *TT, cancel func()) []func() {
 			return []func(){func() { get().Success() }, func() { get().Fail(errA) }}
 		}),
+		// the same outcome reported twice at once (e.g. an acknowledgement and its duplicate handled by two threads)
+		timedScenario("timed:1s:success|success|fail", time.Second, func(get func() *TT, cancel func()) []func() {
+			return []func(){func() { get().Success() }, func() { get().Success() }, func() { get().Fail(errA) }}
+		}),
+		timedScenario("timed:10s:success|success", 10*time.Second, func(get func() *TT, cancel func()) []func() {
+			return []func(){func() { get().Success() }, func() { get().Success() }}
+		}),
 		timedScenario("timed:1s:success|cancel|timer", time.Second, func(get func() *TT, cancel func()) []func() {
 			return []func(){func() { get().Success() }, func() { cancel() }}
 		}),
